@@ -1,7 +1,7 @@
 (* C02 -- validating entry points accept exactly the well-formed JSON texts.
    Statements only; proofs live in Model/. *)
 From Coq Require Import List NArith Arith.
-From SonicV Require Import Spec.Ref Model.SkipStr Model.SkipNum Model.Skip Model.SkipAll Model.RefSound Model.SkipComplete.
+From SonicV Require Import Spec.Ref Model.SkipStr Model.SkipNum Model.Skip Model.SkipAll Model.RefSound Model.SkipComplete Model.RefComplete.
 Import ListNotations.
 Open Scope N_scope.
 
@@ -47,3 +47,12 @@ Proof. exact skip_value_complete. Qed.
 Theorem skip_accepts_exactly_wf : forall l, skip_text l = true <->
   exists w1 v w2, l = w1 ++ v ++ w2 /\ all_ws w1 /\ Value v /\ all_ws w2.
 Proof. exact skip_text_iff. Qed.
+
+(* the executable reference recogniser (Spec/Ref.v, what every validate-and-skip verdict of the
+   implementation is compared with) IS the verified skipper on every byte string, hence accepts
+   exactly whitespace value whitespace *)
+Theorem reference_is_the_verified_recogniser : forall l, rfc_text l = skip_text l.
+Proof. exact rfc_text_is_skip_text. Qed.
+Theorem reference_accepts_exactly_wf : forall l, rfc_text l = true <->
+  exists w1 v w2, l = w1 ++ v ++ w2 /\ all_ws w1 /\ Value v /\ all_ws w2.
+Proof. exact rfc_text_iff. Qed.
